@@ -107,13 +107,16 @@ structure St where
   cfg : Cfg
   stopper : Option Nat
   spc : StopPc
+  /-- history: number of `create_thread` increments / `destroy_thread` decrements so far -/
+  started : Nat
+  finished : Nat
 
 def init (na no : Nat) : St :=
   { na := na, no := no, cnt := 0, creating := 0, staged := 0, destroying := 0,
     live := fun _ => false, running := fun _ => false, cur := fun _ => none,
     worker := fun _ => false, asleep := fun _ => false, nworkers := 0, nsleep := 0,
     ph := .none, incarnation := 0, fin := false, result := 0, cfgReq := ⟨0, 0⟩, cfg := ⟨0, 0⟩,
-    stopper := none, spc := .out }
+    stopper := none, spc := .out, started := 0, finished := 0 }
 
 /-- numeric values of `pika::runtime_state` used by `rt.state` -/
 abbrev rsInitialized : Nat := 0
@@ -130,11 +133,11 @@ def step (s : St) : Ev → Option St
     -- not yet seen it drained (precondition: nothing is submitted once finalize was signalled
     -- and the work has drained)
     if a < s.na ∧ new = s.cnt + 1 ∧ s.ph ≠ .none ∧ s.ph ≠ .stopping then
-      some { s with cnt := s.cnt + 1, creating := s.creating + 1 }
+      some { s with cnt := s.cnt + 1, creating := s.creating + 1, started := s.started + 1 }
     else none
   | .dec a new =>
     if a < s.na ∧ new + 1 = s.cnt ∧ 0 < s.destroying then
-      some { s with cnt := new, destroying := s.destroying - 1 }
+      some { s with cnt := new, destroying := s.destroying - 1, finished := s.finished + 1 }
     else none
   | .stage a =>
     if a < s.na ∧ 0 < s.creating then
